@@ -38,6 +38,11 @@ type ledJob struct {
 	Op   int // -1 = unmodified history
 	Name string
 	Path string // "check" (CheckTx first, delivered only if admitted) | "deliver" | "benign"
+	// Place: "" = the attack REPLACES the scenario's valid target; "with" = it follows the valid target in the
+	// same block; "after" = it comes alone in an extra block right after the target's block (thorough tier:
+	// the attack meets the state the valid operation has just produced - second withdrawal, second decision,
+	// second redeem ... with hostile values)
+	Place string `json:",omitempty"`
 }
 
 type ledViol struct {
@@ -605,23 +610,8 @@ func ledExec(j ledJob) ledRes {
 		}
 		prev, prevDump = cur, dump
 	}
-	for i, b := range h.Blocks {
-		b.NoCheck = true
+	runBlock := func(i int, b harness.BlockSpec, atkLast bool) bool {
 		var wires [][]byte
-		if atk != nil && i == h.Target {
-			wire := atk.spec.Bytes()
-			deliver := true
-			if path == "check" {
-				chk := x.R.CheckTx(wire)
-				out.Code, out.Log = chk.Code, tail(chk.Log, 120)
-				out.Admitted = chk.Code == 0
-				deliver = out.Admitted
-			}
-			b = harness.BlockSpec{NoCheck: true}
-			if deliver {
-				b.Raw = [][]byte{wire}
-			}
-		}
 		for _, t := range b.Txs {
 			wires = append(wires, t.Bytes())
 		}
@@ -629,18 +619,61 @@ func ledExec(j ledJob) ledRes {
 		res, err := x.BlockAt(b, false, nil)
 		if x.R.Dead {
 			out.Viol = append(out.Viol, ledViol{Clause: "panic", Block: i, Detail: "application panicked"})
-			return out
+			return false
 		}
 		if err != nil {
 			out.Viol = append(out.Viol, ledViol{Clause: "halt", Block: i, Detail: err.Error()})
-			return out
+			return false
 		}
-		if atk != nil && i == h.Target && path == "deliver" && len(res.Txs) == 1 {
-			out.Code, out.Log = res.Txs[0].Code, tail(res.Txs[0].Log, 120)
-			out.Admitted = res.Txs[0].Code == 0
+		if atkLast && path == "deliver" && len(res.Txs) > 0 {
+			last := res.Txs[len(res.Txs)-1]
+			out.Code, out.Log = last.Code, tail(last.Log, 120)
+			out.Admitted = last.Code == 0
 		}
 		check(i, wires)
 		out.Blocks++
+		return true
+	}
+	// admit sends the attack through CheckTx on the check path and says whether it is to be delivered
+	admit := func(wire []byte) bool {
+		if path != "check" {
+			return true
+		}
+		chk := x.R.CheckTx(wire)
+		out.Code, out.Log = chk.Code, tail(chk.Log, 120)
+		out.Admitted = chk.Code == 0
+		return out.Admitted
+	}
+	n := 0
+	for i, b := range h.Blocks {
+		b.NoCheck = true
+		atkLast := false
+		if atk != nil && i == h.Target && j.Place != "after" {
+			wire := atk.spec.Bytes()
+			deliver := admit(wire)
+			if j.Place == "" {
+				b = harness.BlockSpec{NoCheck: true}
+			}
+			if deliver {
+				b.Raw = append(append([][]byte{}, b.Raw...), wire)
+				atkLast = true
+			}
+		}
+		if !runBlock(n, b, atkLast) {
+			return out
+		}
+		n++
+		if atk != nil && i == h.Target && j.Place == "after" {
+			wire := atk.spec.Bytes()
+			eb := harness.BlockSpec{NoCheck: true}
+			if admit(wire) {
+				eb.Raw = [][]byte{wire}
+			}
+			if !runBlock(n, eb, len(eb.Raw) > 0) {
+				return out
+			}
+			n++
+		}
 	}
 	out.Moved = out.Admitted
 	return out
@@ -726,6 +759,10 @@ func c0203(prop string, args []string) int {
 					p += "+t"
 				}
 				jobList = append(jobList, ledJob{Prop: prop, Scn: sc.ID(), Op: op, Name: a.name, Path: p})
+				if thorough {
+					jobList = append(jobList, ledJob{Prop: prop, Scn: sc.ID(), Op: op, Name: a.name, Path: p, Place: "with"})
+					jobList = append(jobList, ledJob{Prop: prop, Scn: sc.ID(), Op: op, Name: a.name, Path: p, Place: "after"})
+				}
 			}
 		}
 	}
@@ -769,7 +806,7 @@ func c0203(prop string, args []string) int {
 		if j.Op >= 0 {
 			if r.Admitted {
 				admitted++
-				distinct[j.Scn+"|"+j.Name+"|"+path] = true
+				distinct[j.Scn+"|"+j.Name+"|"+path+"|"+j.Place] = true
 			} else {
 				rejectedN++
 			}
@@ -785,6 +822,9 @@ func c0203(prop string, args []string) int {
 				continue
 			}
 			sig := fmt.Sprintf("%s|%s|what=%s|kind=%s|field=%s|value=%s|path=%s", prop, v.Clause, v.Key, kind, field, class, path)
+			if j.Place != "" {
+				sig += "|place=" + j.Place
+			}
 			if j.Op < 0 {
 				// unmodified history: the history is the identity of the case
 				sig = fmt.Sprintf("%s|%s|what=%s|history=%s", prop, v.Clause, v.Key, j.Scn)
@@ -808,6 +848,9 @@ func c0203(prop string, args []string) int {
 	rep.Set("distinct_nontrivial", len(distinct))
 	rep.Set("rule", "state = the chain state in which a catalogue scenario's target is valid (plus every block boundary of the unmodified history); transition = one execution on the real application of the history with the target replaced by one attack transaction (finite menu, enumerated completely), followed by "+fmt.Sprint(ledgerAfter)+" empty blocks, the ledger oracle evaluated after every block; non-trivial = the attack transaction was ADMITTED (CheckTx code 0 on the check path / DeliverTx code 0 on the direct path), or the unmodified history")
 	rep.Set("kinds", kl)
+	if thorough {
+		rep.Set("placements", []string{"attack replaces the valid target", "attack follows the valid target in the same block", "attack alone in an extra block right after the target's block"})
+	}
 	rep.Set("attacks_admitted", admitted)
 	rep.Set("attacks_rejected", rejectedN)
 	rep.Set("blocks_checked", blocks)
